@@ -101,6 +101,22 @@ def with_ref(t, pos, name, front=False):
     return t
 
 
+def qnames(t, prefix=()):
+    """suffixes (<= 3 parts) of the qualified names of the named nodes: names likely to resolve"""
+    out = []
+    for n in t:
+        if n.get("name"):
+            q = prefix + (n["name"],)
+            out.extend(".".join(q[i:]) for i in range(max(0, len(q) - 3), len(q)))
+            out.extend(qnames(n.get("kids", []), q))
+    return out
+
+
+def pick_name(rng, t, uniform):
+    q = qnames(t)
+    return rng.choice(q) if q and rng.random() < 0.5 else rng.choice(uniform)
+
+
 def random_tree(rng, names, maxnodes, depth=4):
     budget = [rng.randint(3, maxnodes)]
 
@@ -193,19 +209,20 @@ def _cases(rep, rng, quick, witnesses):
             own = [p for p in positions(t) if p[0] in ("ext", "uses")]
             if not own:
                 break
-            t = with_ref(t, rng.choice(own), rng.choice(names2))
+            t = with_ref(t, rng.choice(own), pick_name(rng, t, names2))
         pos = rng.choice(positions(t))
-        cases.append(dict(tree=with_ref(t, pos, rng.choice(names3), front=rng.random() < 0.2)))
+        cases.append(dict(tree=with_ref(t, pos, pick_name(rng, t, names3), front=rng.random() < 0.2)))
         n_cross += 1
     # (I->S) bigger seeded-random trees, names p q r, several references
     nbig = int((500 if quick else 6000) * scale)
     names = ["p", "q", "r"]
+    big3 = dotted(names, 3)
     for _ in range(nbig):
         t = random_tree(rng, names, 14)
         if not t:
             continue
         for _ in range(rng.randint(1, 5)):
-            t = with_ref(t, rng.choice(positions(t)), rng.choice(dotted(names, 3)), front=rng.random() < 0.3)
+            t = with_ref(t, rng.choice(positions(t)), pick_name(rng, t, big3), front=rng.random() < 0.3)
         cases.append(dict(tree=t))
     for i, c in enumerate(cases):
         c["id"] = i
